@@ -132,6 +132,14 @@ def pureOps (ops : List AliasOp) : Bool :=
   guardsBelow (condBound ops) ops &&
     (allBits (condBound ops)).all fun bits => pureFrom bits ops (fun _ => true)
 
+/-- No list that the copy returned by `validate()` may share with the receiver (on any path) is among
+    the lists `mutated` that the rest of the library changes in place. -/
+def useSafe (ops : List AliasOp) (mutated : List String) : Bool :=
+  (allBits (condBound ops)).all fun bits =>
+    match finalTaint bits ops (fun _ => true) with
+    | some T => mutated.all fun f => !T f
+    | none => false
+
 /-! ## Part 2 — value level -/
 
 def notMatching (values sieve : List String) : List String :=
